@@ -58,7 +58,7 @@ RULE = (
     "instance irregular, flexible or with recirculation; sequences case with a "
     "cyclic input or an accepted input different from seq(S)."
 )
-BUDGET = {"quick": 1200, "thorough": 4000}
+BUDGET = {"quick": 1200, "thorough": 8000}
 ASSUMPTIONS = [
     "Taillard text written by the check: header line, one line per job of 'machine duration' pairs, optional # comment lines, single trailing newline",
     "'never a hang' is decided by a 20 s alarm around calls that normally take < 5 ms",
